@@ -134,6 +134,8 @@ type KDC struct {
 	Expect     Expect
 	Issued     []Issued
 	Requests   []Request
+	// ErrorCRealm, when set, is sent as the crealm of every KRB-ERROR (a KDC_ERR_WRONG_REALM referral names the realm to go to there)
+	ErrorCRealm string
 	// ErrorEText, when set, is sent as the e-text of every KRB-ERROR (MIT KDCs send one, Active Directory usually does not)
 	ErrorEText string
 	// StrictRenewal: a ticket that has ended cannot be renewed any more, whatever its renew-till time.
@@ -234,6 +236,9 @@ func (k *KDC) errReply(code int32, req *krbmsg.KDCReq, edata []byte) []byte {
 	}
 	if k.ErrorEText != "" {
 		e.EText = krbmsg.Str(k.ErrorEText)
+	}
+	if k.ErrorCRealm != "" {
+		e.CRealm = krbmsg.Str(k.ErrorCRealm)
 	}
 	if len(k.Requests) > 0 {
 		k.Requests[len(k.Requests)-1].ReplyKind = fmt.Sprintf("ERR-%d", code)
